@@ -219,7 +219,7 @@ public:
 		}
 		product.unpad();
 		*this = product;
-		setsign(signOfFinalResult);
+		setsign(signOfFinalResult && !iszero());
 #if EDECIMAL_OPERATIONS_COUNT
 		enableAdd = true;
 		++ops.mul;
@@ -269,7 +269,7 @@ public:
 	// unitary operators
 	edecimal operator-() const {
 		edecimal tmp(*this);
-		tmp.setsign(!tmp.sign());
+		tmp.setsign(!tmp.sign() && !tmp.iszero());
 		return tmp;
 	}
 	edecimal operator++(int) { // postfix
@@ -342,9 +342,10 @@ public:
 				pop_back();
 			}
 			else {
-				return;  // found the most significant digit
+				break;  // found the most significant digit
 			}
 		}
+		if (size() == 1 && operator[](0) == 0) negative = false; // zero has a single representation: +0
 	}
 
 	// read a edecimal ASCII format and make a edecimal type out of it
